@@ -30,7 +30,9 @@ def new_result(name):
 
 def _init_worker(modname, tier, seed, path):
     import warnings
+    import logging
     warnings.filterwarnings('ignore')
+    logging.disable(logging.CRITICAL)          # scared logs through the logging module; the checks' stdout carries the verdict lines only
     for p_ in path:
         if p_ not in sys.path:
             sys.path.append(p_)
